@@ -161,6 +161,60 @@ Definition set_set_Xs (s : rset) (xs : vec) : rset := mkrset (rows s) (ridxs s) 
 Definition item_of (s : rset) (i : nat) (w : bool) (ph : list nat) : rxn :=
   mkrxn (nth i (rows s) []) (nth i (ridxs s) O) (item_X s i) w ph.
 
+(* Handles onto one set's conversion array: the set itself, items rxnset[i], and slice
+   sub-sets rxnset[lo:lo+len] (numpy basic-slice views).  ReactionSet.X's setter writes
+   in place ([self._X[:] = X], numpy broadcasting: a scalar or length-1 list is repeated, any
+   other wrong length raises ValueError), so every handle keeps seeing the one array. *)
+Inductive handle := HSet | HItem (i : nat) | HSub (lo len : nat).
+Inductive sop :=
+| SItemSet (i : nat) (x : Q)              (* item.X = x *)
+| SSetElem (i : nat) (x : Q)              (* rxnset.X[i] = x *)
+| SSetAll (ys : vec)                      (* rxnset.X = ys  *)
+| SSubAll (lo len : nat) (ys : vec)       (* rxnset[lo:lo+len].X = ys *)
+| SSubElem (lo len i : nat) (x : Q).      (* rxnset[lo:lo+len].X[i] = x *)
+
+Fixpoint write_from (xs : vec) (lo : nat) (ys : vec) : vec :=
+  match ys with
+  | [] => xs
+  | y :: t => write_from (upd xs lo y) (S lo) t
+  end.
+
+Definition broadcast (n : nat) (ys : vec) : res vec :=
+  match ys with
+  | [y] => Ok (repeat y n)
+  | _ => if Nat.eqb (length ys) n then Ok ys else Err EValue
+  end.
+
+Definition sstep (xs : vec) (o : sop) : res vec :=
+  match o with
+  | SItemSet i x => if Nat.ltb i (length xs) then Ok (upd xs i x) else Err EIndex
+  | SSetElem i x => if Nat.ltb i (length xs) then Ok (upd xs i x) else Err EIndex
+  | SSetAll ys => do zs <- broadcast (length xs) ys; Ok (write_from xs 0 zs)
+  | SSubAll lo len ys => do zs <- broadcast len ys; Ok (write_from xs lo zs)
+  | SSubElem lo len i x => if Nat.ltb i len then Ok (upd xs (lo + i) x) else Err EIndex
+  end.
+
+Definition hread (xs : vec) (h : handle) : vec :=
+  match h with
+  | HSet => xs
+  | HItem i => [nthq xs i]
+  | HSub lo len => firstn len (skipn lo xs)
+  end.
+
+Fixpoint srun (xs : vec) (ops : list sop) : vec * list bool :=
+  match ops with
+  | [] => (xs, [])
+  | o :: t => match sstep xs o with
+              | Ok xs' => let (f, oks) := srun xs' t in (f, true :: oks)
+              | Err _ => let (f, oks) := srun xs t in (f, false :: oks)
+              end
+  end.
+
+Definition srun_eqb (xs : vec) (ops : list sop) (hs : list handle)
+           (expect : list vec) (oks : list bool) : bool :=
+  let (f, k) := srun xs ops in
+  list_eqb vapproxb (map (hread f) hs) expect && list_eqb Bool.eqb k oks.
+
 (* ---------- comparison helpers for the correspondence files ---------- *)
 Definition rxn_eqb (a b : rxn) : bool :=
   vapproxb (st a) (st b) && Nat.eqb (ridx a) (ridx b) && qapproxb (X a) (X b)
@@ -171,3 +225,12 @@ Definition run_eqb (mws : vec) (s : store) (ops : list op)
   let (f, k) := run mws s ops in
   store_eqb f expect && list_eqb Bool.eqb k oks
   && list_eqb vapproxb (map (fun r => react r feed) f) reacted.
+
+(* conversion (change of the feed) of a parallel set whose conversions are [xs] *)
+Fixpoint set_conv (rs : list rxn) (xs : vec) (feed acc : vec) : vec :=
+  match rs, xs with
+  | r :: rt, x :: xt => set_conv rt xt feed (vadd acc (vscale (nthq feed (ridx r) * x) (st r)))
+  | _, _ => acc
+  end.
+Definition set_acts_eqb (rs : list rxn) (xs : vec) (feed : vec) (expect : vec) : bool :=
+  vapproxb (set_conv rs xs feed (vzero (length feed))) expect.
